@@ -201,6 +201,46 @@ PROPS = {
                 "exactly those inputs and its value L must be the consumed length (prefix of length L decodes to the same tree, prefix L-1 does not decode). dbg build catches ghost-pair debug_asserts, ASan/Miri memory errors. Non-trivial: accepted input containing a 0xfe token.",
         "assumptions": COMMON_ASSUMPTIONS,
     },
+    "C26": {
+        "variants": REL,
+        "wheel": True,
+        "log": True,
+        "py": "pymon.wheelmon C26",
+        "budget_s": (25, 1200),
+        "min_nontrivial": {"quick": 5000, "thorough": 50000},
+        "must_observe": ["run_ok", "run_err", "run_undecodable", "deser_accepted", "deser_rejected", "wheel_tree_hashes"],
+        "rule": "The Rust harness logs, for generated cases, what the Rust core does: run_program exactly as wheel/src/api.rs sets it up (flags = from_bits_truncate(word) for arbitrary 32-bit words incl. unknown bits, 500,000,000-byte allocator iff LIMIT_HEAP, both inputs decoded with "
+                "node_from_bytes, budgets incl. tiny ones), node_to_bytes / node_to_bytes_backrefs / serialize_2026 of generated trees, and all decoders on valid, mutated, exhaustive-short and random blobs. pymon/wheelmon.py calls the freshly built wheel on the same inputs: "
+                "cost, result tree (LazyNode walked through .atom/.pair and re-serialised by an independent python serialiser), error message text, ser_*/deser_*/deser_auto/serialized_length outputs and sha256_treehash of LazyNode/Program/CLVMTree objects must equal the Rust log. "
+                "Non-trivial: decodable run cases, serialisation cases, accepted decoder inputs.",
+        "assumptions": COMMON_ASSUMPTIONS + ["the wheel is built without maturin (cargo build -p clvm_rs, .so copied next to wheel/python/clvm_rs)"],
+    },
+    "C27": {
+        "variants": {"quick": [], "thorough": []},
+        "wheel": True,
+        "py": "pymon.wheelmon C27",
+        "py_only": True,
+        "budget_s": (60, 1500),
+        "min_nontrivial": {"quick": 500, "thorough": 5000},
+        "must_observe": ["wrapper:Fresh(.pair builds new children)", "wrapper:LazyNode(deser_legacy)", "wrapper:Program.to", "wrapper:CLVMTree"],
+        "rule": "Random trees/DAGs (1-250 pair constructions, shared and unshared) wrapped in every storage the wheel ships or accepts: Program.to, plain python objects, CLVMTree, LazyNode from deser_legacy/deser_backrefs/deser_2026 and from a program result, Program.wrap(LazyNode), "
+                "Program.wrap(CLVMTree), Program.from_bytes and a harness class whose .pair builds fresh children on every access; with and without forced gc.collect(). deser_2026(ser_2026(clvm_tree_to_lazy_node(obj))) and the returned LazyNode itself must re-serialise (independent python serialiser) "
+                "to the source tree. Non-trivial: storage whose .pair creates fresh children and tree of >=50 nodes.",
+        "assumptions": COMMON_ASSUMPTIONS,
+    },
+    "C28": {
+        "variants": REL,
+        "wheel": True,
+        "log": True,
+        "py": "pymon.wheelmon C28",
+        "budget_s": (25, 1200),
+        "min_nontrivial": {"quick": 5000, "thorough": 50000},
+        "must_observe": ["stream_decode_accepted", "stream_decode_rejected", "serializer_cases", "int_cases", "curry_cases", "triple_parser_cases", "boundary_atoms"],
+        "rule": "Rust log: classic decoder on every dense-alphabet string up to length 5, long-length-prefix probes, mutated/valid/random blobs; node_to_bytes of generated trees; new_number bytes for every integer in [-40000,40000), word boundaries and random big values. Python side: "
+                "sexp_from_stream must accept exactly the inputs node_from_bytes accepts and yield the same tree; sexp_to_bytes == node_to_bytes (plus atoms at every length-prefix boundary up to 1 MiB+1 against ser_legacy); int_to_bytes/int_from_bytes == Rust; the pure-python triple parser "
+                "(native import disabled) == native; curry_hash == tree hash of curry, uncurry(curry(m,a)) == (m,a), and running the curried program == running the module with the arguments prepended. Non-trivial: accepted decoder inputs, serialiser/int/curry cases.",
+        "assumptions": COMMON_ASSUMPTIONS + ["the Rust classic serialiser is reached through the wheel's ser_legacy where no Rust log exists (itself checked by C26)"],
+    },
     "C29": {
         "variants": REL,
         "budget_s": (30, 1200),
